@@ -435,7 +435,9 @@ func RuleF4(r *Report, p *Program) {
 		}
 		w := NewWalker(p)
 		w.LoopFuel = 1
-		w.Inline = func(f *ssa.Function, d int) bool { return false }
+		w.Inline = inlineHelpers([]*ssa.Package{pkgOf(fn)}, func(f *ssa.Function) bool {
+			return f == fn || (f.Object() != nil && f.Object().Exported())
+		})
 		args := make([]*Term, len(fn.Params))
 		buf := ""
 		for i, prm := range fn.Params {
@@ -443,7 +445,7 @@ func RuleF4(r *Report, p *Program) {
 			if _, ok := prm.Type().Underlying().(*types.Slice); ok {
 				buf = prm.Name()
 			} else {
-				w.Assume = map[string]IntervalSet{"(reflect.Value).NumField(" + prm.Name() + ")": {{0, 0}}}
+				w.Assume = map[string]IntervalSet{"(reflect.Value).NumField(" + prm.Name() + ")": {{0, 0}}, "invoke:reflect.Type.NumField((reflect.Value).Type(" + prm.Name() + "))": {{0, 0}}}
 			}
 		}
 		bad := ""
